@@ -90,7 +90,11 @@ partial def inFeatures (vg : VG) : String :=
     | .multiPolygon polys => polys.any fun rings => rings.any fun s => !s.pts.isEmpty && (dedup s.pts).length == 1
     | .collection gs => gs.any ptRing
     | _ => false
-  s!"ring={if badRing vg then 1 else 0} ptring={if ptRing vg then 1 else 0}"
+  -- some polygon ring runs over one of its own edges more than once (two of its segments overlap collinearly)
+  let retrace : Bool := (Driver.C05.polysOf vg).any fun rings => rings.any fun r =>
+    let es := (edges r).filter fun e => e.1 != e.2
+    (pairsOf es).any fun (a, b) => segRel a.1 a.2 b.1 b.2 == SegRel.overlap
+  s!"ring={if badRing vg then 1 else 0} ptring={if ptRing vg then 1 else 0} retrace={if retrace then 1 else 0}"
 
 def kvOf (l : List String) : List (String × String) := Driver.C05.kv l
 
@@ -104,6 +108,8 @@ def check (line : String) : String :=
     match Driver.GTreeIO.parseGeom ti with
     | some (gi, []) =>
       if hasCurve gi.g then "skip curved" else
+      if to == ["TIMEOUT"] || to == ["CRASH"] then
+        s!"bad {if to == ["TIMEOUT"] then "no-termination" else "crash-in-child"} method={get "method"} keep={get "keep"} type={reprStr (tyOfG gi.g)} finite={if (ordsOf gi.g).all F64.isFinite then 1 else 0}" else
       if to == ["NULL"] then
         let (_, toI0) := scaleG gi.g
         let f := match toVG toI0 gi.g with | some v => inFeatures v | none => "ring=? ptring=?"
@@ -154,7 +160,7 @@ def check (line : String) : String :=
               let seen := resOfG go.g
               let same := showRes model == showRes seen ||
                 (match model, seen with | .atom .collection false, .coll _ => true | _, _ => false)
-              if same then none else some s!"bad dispatch model={showRes model} impl={showRes seen}",
+              if same then none else some s!"bad dispatch model={showRes model} impl={showRes seen} mt={(showRes model).replace "GeosModel.Fix.Ty." ""} it={(showRes seen).replace "GeosModel.Fix.Ty." ""}",
             fun _ => if get "idem" == "1" then none else some s!"bad idempotence idem={get "idem"}"]
           let rec first : List (Unit → Option String) → String
             | [] => "ok"
